@@ -10,6 +10,8 @@ import Driver.Pages
 import Driver.Fmv
 import Driver.Etrade
 import Driver.QuestradeOracle
+import Driver.Csvrt
+import Driver.Layout
 open Driver
 
 def runLedger (c : Case) : Res :=
@@ -55,6 +57,8 @@ def dispatch (c : Case) : Res :=
   | "fmv" => runFmv c
   | "etrade" => runEtrade c
   | "questrade" => runQuestrade c
+  | "csvrt" => runCsvrt c
+  | "layout" => runLayout c
   | f => { verdict := "BADCASE", msg := s!"unknown family {f}" }
 
 def main : IO Unit := do
